@@ -158,6 +158,8 @@ def oracle(ctx, rng, n, max_steps=300):
         case['core']['bypass_fraction'] = round(10 ** rng.uniform(-2.3, -1), 5)
         for tn in list(case['types']):
             u = rng.random() if not same_rings else 1.0
+            if ci % 3 == 2:
+                u = 0.0        # every third core: unrodded regions below / above the bundle (region switches while coupled to the gap)
             if u < 0.25:
                 gi.add_axial_regions(rng, case, tn, lower=rng.random() < 0.7, upper=rng.random() < 0.7, models=('simple',))
             elif u < 0.4:
@@ -209,7 +211,11 @@ def oracle(ctx, rng, n, max_steps=300):
 
         def cb(i, z, dz):
             s = snapshot()
-            if 'prev' in state and i > 0 and state['prev'][4] == s[4] == state.get('prev_idx', s[4]):
+            # steps on which an assembly changes its axial region are included: the new region starts from the mixed-mean
+            # temperature of the old one, so the enthalpy flow m cp T is continuous across the switch (constant properties)
+            if 'prev' in state and i > 0:
+                if state['prev'][4] != s[4]:
+                    ctx.count("steps_with_region_switch")
                 p = state['prev']
                 dH = (s[0] - p[0]) + (s[1] - p[1])
                 dP = s[2] - p[2]
